@@ -638,6 +638,66 @@ def gen_case_conj_under_disj(rng, tier=None):
                 sel=[['var', k] for k in keys if k in used], cond=cond, form='set_of')
 
 
+def gen_case_dedup(rng, tier=None):
+    """PROJECTIONS over 2-3 variables (a proper subset of the variables is selected) with and_/or_ nested 2-4 deep over
+    0/1-valued attributes: many assignments share a projection, so the de-duplication of rows (`_is_duplicate_output_`, the
+    required variables a parent reports) decides which rows an operator passes on - a row that is dropped must not be the only
+    one that a LATER part of the condition (a right operand, the other branch of an enclosing disjunction) would have accepted."""
+    nobj = rng.randint(3, 6)
+    heap = gen_heap(rng, nobj, True)
+    for o in heap:
+        o[0], o[1] = rng.randint(0, 1), rng.randint(0, 2)
+        o[8] = o[0] >= 2
+    nv = rng.choice([2, 2, 3])
+    keys = list(range(1, nv + 1))
+    doms = [[k, rng.sample(range(nobj), rng.randint(2, min(4, nobj)))] for k in keys]
+    fa = lambda k: ['map', ['f', F[rng.choice('ab')]], ['var', k]]
+    ops = ['==', '!=', '<', '>=', '<=']
+
+    def leaf():
+        r = rng.random()
+        if r < 0.45:
+            return ['cmp', rng.choice(ops), fa(rng.choice(keys)), ['lit', rng.randint(0, 2)]]
+        j, k = rng.sample(keys, 2)
+        return ['cmp', rng.choice(ops), fa(j), fa(k)]
+
+    def tree(d):
+        if d == 0 or rng.random() < 0.15:
+            return leaf()
+        r = rng.random()
+        if r < 0.5:
+            return ['or', tree(d - 1), tree(d - 1), rng.choice(['fn', 'op'])]
+        if r < 0.9:
+            return ['and', tree(d - 1), tree(d - 1), rng.choice(['fn', 'op'])]
+        return ['not', tree(d - 1), 'fn']
+    cond = tree(rng.choice([2, 3, 3, 4]))
+    used = sorted(cond_keys(cond, set()))
+    selk = rng.sample(used, rng.randint(1, max(1, len(used) - 1)))
+    if rng.random() < 0.4:
+        # left-deep chains: an UNSELECTED variable y first met deep on the left and needed again by the right operand of an
+        # outer operator, e.g.  or_(and_(or_(A(x), B(x, y)), C(x)), D(y))  selecting x: whatever the inner operators drop as
+        # duplicates (same x) must not be the only y that D accepts
+        x, y = rng.sample(keys, 2)
+        one = lambda k: ['cmp', rng.choice(ops), fa(k), ['lit', rng.randint(0, 2)]]
+        two = lambda j, k: ['cmp', rng.choice(ops), fa(j), fa(k)]
+        node = rng.choice([one(x), ['or', one(x), two(x, y), 'fn'], ['or', one(x), one(y), 'fn'], ['and', one(x), two(x, y), 'fn'],
+                           ['or', one(x), two(x, y), 'fn']])
+        for _ in range(rng.choice([1, 2, 2, 3])):
+            leaf_ = rng.choice([one(x), one(x), one(y), two(x, y)])
+            node = [rng.choice(['and', 'or']), node, leaf_, rng.choice(['fn', 'op'])]
+        node = [rng.choice(['or', 'or', 'and']), node, rng.choice([one(y), one(y), two(y, x)]), 'fn']
+        if rng.random() < 0.15:
+            node = ['not', node, 'fn']
+        cond = node
+        used = sorted(cond_keys(cond, set()))
+        selk = [x] if x in used else [used[0]]
+    sel = [['var', k] for k in selk]
+    if rng.random() < 0.15:
+        sel[rng.randrange(len(sel))] = ['map', ['f', F[rng.choice('ab')]], ['var', selk[0]]]
+    return dict(heap=heap, doms=[d for d in doms if d[0] in used], binders=[['var', k] for k in keys if k in used],
+                sel=sel, cond=cond, form='entity' if len(sel) == 1 and rng.random() < 0.5 else 'set_of')
+
+
 def gen_pair(rng, tier):
     nv = rng.choice([1, 2, 2, 3])
     orig = gen_case(rng, nvars=nv, falsy=True, neg=True, maxdepth=3, select=rng.choice(['all', 'some']), dom_max=3)
